@@ -848,7 +848,21 @@ def stepReg (st : DSt) (r : Report) (ln : Nat) (cmd obs : List String) : Option 
     let r :=
       if normals.isEmpty then r
       else match q.sampleAll count normals with
-        | some h => if h == hist then r else r.mismatch st ln "sample" (toString (h.take 16)) (toString (hist.take 16))
+        | some h =>
+          if h == hist then r
+          else
+            -- a register with several threads sums its probabilities / draws in another order than the model: the sums
+            -- agree to rounding only, and a proposal that sits on a rounding boundary (x.5) may then round the other way.
+            -- Such a near-tie explains a different histogram; anything else is a disagreement.
+            let p := q.getProbabilities
+            let c : Float := Float.ofNat count
+            let cs := Float.sqrt c
+            let nn := (p.zip normals).map (fun pg => Float.sqrt pg.1 * pg.2)
+            let ns := nn.foldl (· + ·) 0
+            let nearTie := (p.zip nn).any (fun pn =>
+              let x := c * pn.1 + cs * (pn.2 - ns * pn.1)
+              Float.abs (Float.abs (x - Float.floor x) - 0.5) < 1e-6)
+            if nearTie then r else r.mismatch st ln "sample" (toString (h.take 16)) (toString (hist.take 16))
         | none => r.mismatch st ln "sample" "model-panic" (toString (hist.take 16))
     -- SPEC (C16/C14): 2^n cells, exact total, no shots on impossible outcomes
     let size := 2 ^ q.qNum
